@@ -71,6 +71,12 @@ pub struct Dev<'a> {
     deviate: Vec<(usize, Vec<MaybeRelocatable>)>,
     /// (kind, honest outputs) per occurrence with outputs
     pub log: Vec<(String, Vec<MaybeRelocatable>, Vec<Felt>)>,
+    /// After a deviation the runner's own (honest) implementation of a later hint may find its book-keeping
+    /// inconsistent and panic; a prover is free to answer anything there, so the j-th such hint gets all its
+    /// outputs set to `fallback[j]`. When the list is exhausted the run is abandoned as inconclusive.
+    fallback: Vec<Felt>,
+    panicked_hints: usize,
+    pub inconclusive: bool,
 }
 
 impl HintProcessorLogic for Dev<'_> {
@@ -107,7 +113,24 @@ impl HintProcessorLogic for Dev<'_> {
                 }
                 let scratch: Vec<CellRef> = outputs_mut(&mut h2).into_iter().map(|c| *c).collect();
                 let boxed: Box<dyn Any> = Box::new(Hint::Core(CoreHintBase::Core(h2)));
-                self.inner.execute_hint(vm, scopes, &boxed)?;
+                let honest_run = std::panic::catch_unwind(std::panic::AssertUnwindSafe(|| self.inner.execute_hint(vm, scopes, &boxed)));
+                match honest_run {
+                    Ok(r) => r?,
+                    Err(_) => {
+                        // the honest implementation cannot answer in this (deviated) state: forced answer
+                        let j = self.panicked_hints;
+                        self.panicked_hints += 1;
+                        let Some(v) = self.fallback.get(j).copied() else {
+                            self.inconclusive = true;
+                            return Err(HintError::CustomHint("inconclusive: honest hint implementation panicked after a deviation".into()));
+                        };
+                        for c in orig.iter() {
+                            vm.insert_value(cell_ref_to_relocatable(c, vm), MaybeRelocatable::Int(v)).map_err(HintError::Memory)?;
+                        }
+                        self.log.push((kind_of(ch), vec![], inputs));
+                        return Ok(());
+                    }
+                }
                 let mut honest = vec![];
                 for c in &scratch {
                     // a hint may leave some outputs unwritten (e.g. the unused branch of U256InvModN)
@@ -127,7 +150,14 @@ impl HintProcessorLogic for Dev<'_> {
                 return Ok(());
             }
         }
-        self.inner.execute_hint(vm, scopes, data)
+        match std::panic::catch_unwind(std::panic::AssertUnwindSafe(|| self.inner.execute_hint(vm, scopes, data))) {
+            Ok(r) => r,
+            Err(_) => {
+                // a hint without redirectable outputs (it writes through pointers): nothing sensible can be forced
+                self.inconclusive = true;
+                Err(HintError::CustomHint("inconclusive: honest hint implementation panicked after a deviation".into()))
+            }
+        }
     }
     fn compile_hint(&self, code: &str, a: &ApTracking, r: &HashMap<String, usize>, refs: &[HintReference], sc: &[String], c: Arc<HashMap<String, Felt>>) -> Result<Box<dyn Any>, VirtualMachineError> {
         self.inner.compile_hint(code, a, r, refs, sc, c)
@@ -165,13 +195,21 @@ fn fixed_ec_point() -> (Felt, Felt) {
 }
 
 fn run_dev(c: &Compiled, f: &Function, args: &[Arg], gas: usize, deviate: Vec<(usize, Vec<MaybeRelocatable>)>, step_cap: usize) -> Result<(Result<RunResultStarknet, String>, Vec<(String, Vec<MaybeRelocatable>, Vec<Felt>)>), String> {
+    run_dev_fb(c, f, args, gas, deviate, step_cap, vec![]).map(|(r, l, _)| (r, l))
+}
+
+/// As `run_dev`, with forced answers for honest hints that panic after the deviation; the flag tells whether the
+/// run was abandoned because more forced answers were needed than given.
+#[allow(clippy::type_complexity)]
+fn run_dev_fb(c: &Compiled, f: &Function, args: &[Arg], gas: usize, deviate: Vec<(usize, Vec<MaybeRelocatable>)>, step_cap: usize, fallback: Vec<Felt>) -> Result<(Result<RunResultStarknet, String>, Vec<(String, Vec<MaybeRelocatable>, Vec<Felt>)>, bool), String> {
     let a: Vec<Arg> = args.to_vec();
     let (mut hp0, ctx) = c.runner.prepare_starknet_context(f, a, Some(gas), StarknetState::default()).map_err(|e| format!("{e}"))?;
     // bound the run: a deviated flag may send the program into a long loop
     hp0.run_resources = RunResources::new(step_cap);
-    let mut hp = Dev { inner: hp0, occ: 0, deviate, log: vec![] };
+    let mut hp = Dev { inner: hp0, occ: 0, deviate, log: vec![], fallback, panicked_hints: 0, inconclusive: false };
     let r = c.runner.run_function_with_prepared_starknet_context(f, &mut hp, ctx).map_err(|e| format!("{e}"));
-    Ok((r, std::mem::take(&mut hp.log)))
+    let inconclusive = hp.inconclusive;
+    Ok((r, std::mem::take(&mut hp.log), inconclusive))
 }
 
 fn two() -> Felt {
@@ -383,6 +421,9 @@ fn run_all(ctx: &mut Ctx) {
     }
     // (the hint-targeted programs `hintx:*` are part of the shared snippet list)
     progs.extend(divrem_lattice());
+    if let Ok(f) = std::env::var("VERIF_C03_ONLY") {
+        progs.retain(|(n, _)| n.contains(&f));
+    }
     let mut dbs = Dbs::default();
     let cfg = Cfg::DEFAULT;
     let max_vec = tier.pick(9, 49);
@@ -467,40 +508,68 @@ fn run_all(ctx: &mut Ctx) {
                                 }
                                 ctx.count("evaluations", 1);
                                 ctx.distinct(&(name.as_str(), fname(f), args_str(args), i, alt_name.as_str()));
-                                let r = guarded(|| run_dev(&c, f, args, GAS, vec![(i, alt.clone())], step_cap));
-                                match r {
-                                    Err((loc, msg)) => {
-                                        // a panic inside the runner/VM under a dishonest hint is an invalid execution, not a result
-                                        ctx.outcome(&format!("{kind}:runner-panic"));
-                                        ctx.note(format!("runner panic under deviation at {loc}: {}", msg.chars().take(80).collect::<String>()));
+                                // forced-answer sequences for later honest hints whose implementation panics in the
+                                // deviated state (first none; then every sequence of length 1 and 2 over {0, 1, 2})
+                                let mut seqs: Vec<Vec<Felt>> = vec![vec![]];
+                                let fv = [Felt::ZERO, Felt::ONE, Felt::TWO];
+                                for a in fv {
+                                    seqs.push(vec![a]);
+                                }
+                                for a in fv {
+                                    for b in fv {
+                                        seqs.push(vec![a, b]);
                                     }
-                                    Ok(Ok((Err(e), _))) if e.contains("Execution reached the end of the program") || e.contains("RunResources") || e.contains("nfinished") => {
-                                        ctx.outcome(&format!("{kind}:step-cap-inconclusive"))
-                                    }
-                                    Ok(Err(_)) | Ok(Ok((Err(_), _))) => ctx.outcome(&format!("{kind}:vm-failure")),
-                                    Ok(Ok((Ok(res), _))) => {
-                                        let obs = crate::cexec::observable(&prog, sizes, f, &res.value, &res.memory);
-                                        let same_value = obs.as_ref() == Some(&hobs);
-                                        if obs.is_none() {
-                                            // the deviated run ended "successfully" with a value that cannot even be read
-                                            // back (dangling pointer): it differs from the honest, readable one
+                                }
+                                for (si, seq) in seqs.iter().enumerate() {
+                                    let r = guarded(|| run_dev_fb(&c, f, args, GAS, vec![(i, alt.clone())], step_cap, seq.clone()));
+                                    let forced = if seq.is_empty() { String::new() } else { format!("+forced{:?}", seq.iter().map(short_felt).collect::<Vec<_>>()) };
+                                    let mut need_more = false;
+                                    match r {
+                                        Err((loc, msg)) => {
+                                            // a panic outside the hint implementations (runner / VM proper): not a result
+                                            ctx.outcome(&format!("{kind}:runner-panic"));
+                                            ctx.note(format!("runner panic under deviation at {loc}: {}", msg.chars().take(80).collect::<String>()));
                                         }
-                                        if same_value && res.gas_counter == hres.gas_counter {
-                                            ctx.outcome(&format!("{kind}:same-result"));
-                                        } else if same_value {
-                                            ctx.outcome(&format!("{kind}:same-value-different-gas"));
-                                            ctx.violation(
-                                                format!("hint-changes-gas:{kind}"),
-                                                format!("a dishonest {kind} output ({alt_name}) leaves the value but changes the gas counter: {:?} vs honest {:?}", res.gas_counter.map(|g| short_felt(&g)), hres.gas_counter.map(|g| short_felt(&g))),
-                                                case(),
-                                            );
-                                        } else {
-                                            ctx.outcome(&format!("{kind}:DIFFERENT-RESULT"));
-                                            ctx.violation(
-                                                format!("hint-changes-result:{kind}"),
-                                                format!("a dishonest {kind} output ({alt_name}) yields a successful run with a different result: {} vs honest {hobs}", obs.clone().unwrap_or_else(|| format!("<unreadable> {}", value_json(&res.value)))),
-                                                case(),
-                                            );
+                                        Ok(Ok((_, _, true))) => {
+                                            // more forced answers needed than this sequence has
+                                            need_more = true;
+                                        }
+                                        Ok(Ok((Err(e), _, _))) if e.contains("Execution reached the end of the program") || e.contains("RunResources") || e.contains("nfinished") => {
+                                            ctx.outcome(&format!("{kind}:step-cap-inconclusive"))
+                                        }
+                                        Ok(Err(_)) | Ok(Ok((Err(_), _, _))) => ctx.outcome(&format!("{kind}:vm-failure{}", if seq.is_empty() { "" } else { "(forced)" })),
+                                        Ok(Ok((Ok(res), _, _))) => {
+                                            let obs = crate::cexec::observable(&prog, sizes, f, &res.value, &res.memory);
+                                            let same_value = obs.as_ref() == Some(&hobs);
+                                            if same_value && res.gas_counter == hres.gas_counter {
+                                                ctx.outcome(&format!("{kind}:same-result"));
+                                            } else if same_value {
+                                                ctx.outcome(&format!("{kind}:same-value-different-gas"));
+                                                ctx.violation(
+                                                    format!("hint-changes-gas:{kind}"),
+                                                    format!("a dishonest {kind} output ({alt_name}{forced}) leaves the value but changes the gas counter: {:?} vs honest {:?}", res.gas_counter.map(|g| short_felt(&g)), hres.gas_counter.map(|g| short_felt(&g))),
+                                                    case(),
+                                                );
+                                            } else {
+                                                ctx.outcome(&format!("{kind}:DIFFERENT-RESULT"));
+                                                ctx.violation(
+                                                    format!("hint-changes-result:{kind}"),
+                                                    format!("a dishonest {kind} output ({alt_name}{forced}) yields a successful run with a different result: {} vs honest {hobs}", obs.clone().unwrap_or_else(|| format!("<unreadable> {}", value_json(&res.value)))),
+                                                    case(),
+                                                );
+                                            }
+                                        }
+                                    }
+                                    // without forced answers the run was decisive: done. Otherwise go through the sequences;
+                                    // sequences of length 1 that were decisive make their length-2 extensions redundant but
+                                    // harmless (the second answer is never asked for)
+                                    if si == 0 && !need_more {
+                                        break;
+                                    }
+                                    if si > 0 {
+                                        ctx.count("runs_with_forced_answers", 1);
+                                        if need_more && seq.len() == 2 {
+                                            ctx.outcome(&format!("{kind}:inconclusive-after-2-forced-answers"));
                                         }
                                     }
                                 }
@@ -520,7 +589,7 @@ fn run_all(ctx: &mut Ctx) {
 pub static C03: CheckDef = CheckDef {
     id: "C03",
     level: "fault_enumeration",
-    rule: "Fault enumeration with deviation bound 1. Programs: every e2e cairo_code snippet + 24 hand-written programs + 15 hint-targeted programs (u256/u512 division, square roots, modular inverse, felt->int conversions, downcasts, dict squash, arrays, EC, wide mul, signed division), every function with scalar parameters x boundary inputs (quick <=9 vectors, thorough <=49). One honest run (through a StarknetHintProcessor wrapper around the runner's CairoHintProcessor; the real hint is executed with its output cells redirected to scratch cells so its side state stays honest) records the ordered hint occurrences h1..hn and their honest outputs. Then for EVERY occurrence (quick: first 40, thorough: first 200) and EVERY alternative of the menu one run deviates at that occurrence only. Menu per output cell: flipped boolean, v+1, v-1, 0, 1, 2, -v, v+2^128, 2^128-1, 2^128; for pointers: alias of each of the last 3 allocated pointers, ptr+1, integer 0; for pairs: swapped, and consistent re-decompositions (q+1, r-d), (q-1, r+d) for d in {1,2,255,256,2^128}; for DivMod and LinearSplit the hint's inputs are read and every decomposition of the same residue a + kP (k = 1..3; canonical and q-1, r+b) is offered, since the verified relation holds modulo P and only the range checks exclude them; plus the div_rem lattice: bounded_int_div_rem over 6 dividend ranges x 12 divisor ranges placed on both sides of T = (P-1)/2^128 for each of the three verification schemes (KnownSmallRhs / KnownSmallQuotient / KnownSmallLhs); RandomEcPoint's randomness is replaced by a fixed curve point. Oracle: the deviated run is a VM failure, or Ok with the same value AND gas counter as the honest run; Ok with a different value (or gas) is the violation. observed_outcomes lists (hint kind, outcome) counts: every reached hint kind must show VM failures (vacuity guard). distinct_nontrivial = distinct (program, function, args, occurrence, alternative).",
+    rule: "Fault enumeration with deviation bound 1. Programs: every e2e cairo_code snippet + 24 hand-written programs + 15 hint-targeted programs (u256/u512 division, square roots, modular inverse, felt->int conversions, downcasts, dict squash, arrays, EC, wide mul, signed division), every function with scalar parameters x boundary inputs (quick <=9 vectors, thorough <=49). One honest run (through a StarknetHintProcessor wrapper around the runner's CairoHintProcessor; the real hint is executed with its output cells redirected to scratch cells so its side state stays honest) records the ordered hint occurrences h1..hn and their honest outputs. Then for EVERY occurrence (quick: first 40, thorough: first 200) and EVERY alternative of the menu one run deviates at that occurrence only. Menu per output cell: flipped boolean, v+1, v-1, 0, 1, 2, -v, v+2^128, 2^128-1, 2^128; for pointers: alias of each of the last 3 allocated pointers, ptr+1, integer 0; for pairs: swapped, and consistent re-decompositions (q+1, r-d), (q-1, r+d) for d in {1,2,255,256,2^128}; for DivMod and LinearSplit the hint's inputs are read and every decomposition of the same residue a + kP (k = 1..3; canonical and q-1, r+b) is offered, since the verified relation holds modulo P and only the range checks exclude them; plus the div_rem lattice: bounded_int_div_rem over 6 dividend ranges x 12 divisor ranges placed on both sides of T = (P-1)/2^128 for each of the three verification schemes (KnownSmallRhs / KnownSmallQuotient / KnownSmallLhs); RandomEcPoint's randomness is replaced by a fixed curve point. When, after the deviation, the runner's own implementation of a LATER hint finds its book-keeping inconsistent and panics (dict squash loops), a prover could still answer anything there: the run is repeated with that hint's outputs forced to each value of {0,1,2}, and likewise for a second such hint (12 forced-answer sequences); runs needing a third forced answer are counted inconclusive. Oracle: the deviated run is a VM failure, or Ok with the same value AND gas counter as the honest run; Ok with a different value (or gas) is the violation. observed_outcomes lists (hint kind, outcome) counts: every reached hint kind must show VM failures (vacuity guard). distinct_nontrivial = distinct (program, function, args, occurrence, alternative).",
     assumptions: &["soundness is judged against cairo-vm's checks (write-once memory, range-check and other builtin validation at end of run), not against a STARK prover", "hints that write through pointers (AssertLeFindSmallArcs, GetCurrentAccessIndex, Felt252DictEntryInit, AllocFelt252Dict, EvalCircuit) are executed honestly in this version", "scratch cells for redirected outputs live at ap+3000.. and are assumed unused by the small programs"],
     run: run_all,
     stack_mb: 32,
